@@ -19,7 +19,8 @@
        whatever an earlier item gave to parts of p is overridden (p19) and what the inner list does
        not mention is zero (p21);   a scalar may be wrapped in braces (p11);
      * a string literal initializes an array of character type, the terminating null only if there
-       is room or the bound is unknown (p14);
+       is room or the bound is unknown (p14); it initializes the whole array: the elements behind it are
+       (explicitly) zero, also when an earlier item had given them a value (p19, p21);
      * the result is a LOG of events in list order; the value of a leaf is decided by the LAST event
        that concerns it (p19 "initialization shall occur in initializer list order, each initializer
        overriding any previously listed initializer for the same subobject"), a leaf no event
@@ -114,17 +115,25 @@ Fixpoint str_target (U : ty) (p : path) : path :=
 (* ---- events ---- *)
 
 Inductive event : Type :=
-| Set_ (p : path) (x : val)     (* the scalar at p is initialized with x *)
+| Set_ (p : path) (x : option val)   (* the scalar at p is initialized with x; None: explicitly zero (the part of a
+                                      character array behind a string literal, p14 + p21) *)
 | Clear (p : path).             (* subobject p is initialized by a braced list: everything earlier for it is void *)
 
 Definition at_ (p : path) (e : event) : event :=
   match e with Set_ q x => Set_ (p ++ q) x | Clear q => Clear (p ++ q) end.
 
-(* the characters a string literal gives to the char array at q (p14) *)
+(* what a string literal gives to the char array at q (p14): its characters to the elements from i on while there
+   is room, and - the literal initializes the WHOLE array - zero to the elements behind it (p21) *)
+Definition zero_fill (q : path) (i : nat) (room : option nat) : list event :=
+  match room with
+  | Some n => map (fun k => Set_ (q ++ [k]) None) (seq i (n - i))
+  | None => []
+  end.
+
 Fixpoint string_events (q : path) (i : nat) (room : option nat) (s : list nat) : list event :=
   match s with
-  | [] => []
-  | c :: s' => if in_bound room i then Set_ (q ++ [i]) (VChar c) :: string_events q (S i) room s' else []
+  | [] => zero_fill q i room
+  | c :: s' => if in_bound room i then Set_ (q ++ [i]) (Some (VChar c)) :: string_events q (S i) room s' else []
   end.
 
 Definition array_bound (W : option ty) : option nat :=
@@ -150,7 +159,7 @@ Fixpoint targets (U : ty) (ds : list desig) : list path :=
    spec_items U c l : the items of a braced list whose current object has type U, cursor c. *)
 Fixpoint spec_init (U : ty) (p : path) (v : init) {struct v} : list event * path :=
   match v with
-  | IExpr e => let q := first_leaf U p in ([Set_ q (VExpr e)], q)
+  | IExpr e => let q := first_leaf U p in ([Set_ q (Some (VExpr e))], q)
   | IStr s => let q := str_target U p in (string_events q 0 (array_bound (sub U q)) s, q)
   | IList l =>
       match sub U p with
@@ -160,7 +169,7 @@ Fixpoint spec_init (U : ty) (p : path) (v : init) {struct v} : list event * path
       | Some W =>
           match l with
           | ICons [] (IStr s) INil =>
-              if is_char_array W then (Clear p :: string_events p 0 (array_bound (Some W)) s, p)
+              if is_char_array W then (string_events p 0 (array_bound (Some W)) s, p)       (* p14: { "..." } *)
               else (Clear p :: map (at_ p) (spec_items W (Some [0]) l), p)
           | _ => (Clear p :: map (at_ p) (spec_items W (Some [0]) l), p)
           end
@@ -210,7 +219,7 @@ Fixpoint diverge_at_union (U : ty) (q p : path) : bool :=
 
 Definition step_value (T : ty) (p : path) (cur : option val) (e : event) : option val :=
   match e with
-  | Set_ q x => if path_eqb q p then Some x else if diverge_at_union T q p then None else cur
+  | Set_ q x => if path_eqb q p then x else if diverge_at_union T q p then None else cur
   | Clear q => if is_prefix q p then None else cur
   end.
 
